@@ -549,6 +549,9 @@ def _newton_domain(ctx):
     ctx.rule("R-C16-12", floor=2, what="callables handed to the Newton solver have no power of the iterate with a possibly negative exponent")
     ci = prog.cls(RO)
     f = prog.lookup_method(ci, "stress")
+    if not [c_ for c_ in calls_in(f.node) if (call_name(c_) or "").endswith("optimize.newton")]:
+        from ..inline import inlined
+        f = inlined(prog, f, skip=("_get_abs_sign",))
     nested = {n.name: n for n in f.node.body if isinstance(n, ast.FunctionDef)}
     c = [c for c in calls_in(f.node) if (call_name(c) or "").endswith("optimize.newton")]
     if len(c) != 1:
@@ -562,10 +565,13 @@ def _newton_domain(ctx):
         if k.arg not in ("func", "fprime", "fprime2"):
             continue
         fn = nested.get(k.value.id) if isinstance(k.value, ast.Name) else (k.value if isinstance(k.value, ast.Lambda) else None)
+        if fn is None and is_self_attr(k.value):
+            m_ = prog.lookup_method(ci, k.value.attr)       # a bound method of the law handed over directly
+            fn = m_.node if m_ is not None else None
         if fn is None:
             raise AnalysisError("newton %s=%s is not a local function" % (k.arg, norm_text(k.value)))
         n += 1
-        arg = fn.args.args[0].arg
+        arg = [a_.arg for a_ in fn.args.args if a_.arg != "self"][0]
         bad = _singular_powers(prog, ci, fn, arg)
         for node, et, iv in bad:
             ctx.violated(f, fn if isinstance(fn, ast.stmt) else c[0], "%s=%s contains %s with exponent %s %s for 0 < n < 1: "
@@ -584,6 +590,9 @@ def _newton(ctx):
     ctx.rule("R-C16-8", floor=5, what="Newton inversion is wired to strain, its derivative, start value and sign")
     ci = prog.cls(RO)
     f = prog.lookup_method(ci, "stress")
+    if not [c_ for c_ in calls_in(f.node) if (call_name(c_) or "").endswith("optimize.newton")]:
+        from ..inline import inlined
+        f = inlined(prog, f, skip=("_get_abs_sign",))       # the solver call may live in an extracted private helper
     nested = {n.name: n for n in f.node.body if isinstance(n, ast.FunctionDef)}
     c = [c for c in calls_in(f.node) if (call_name(c) or "").endswith("optimize.newton")]
     if len(c) != 1:
@@ -608,6 +617,8 @@ def _newton(ctx):
         ctx.violated(f, func or f.node, "Newton residual is not strain(stress) - |given strain|", text="residual")
     ok = fpr is not None and isinstance(fpr.body[-1].value, ast.Call) and is_self_attr(fpr.body[-1].value.func, "tangential_compliance") \
         and norm_text(fpr.body[-1].value.args[0]) == fpr.args.args[0].arg
+    if not ok and is_self_attr(kw.get("fprime"), "tangential_compliance"):
+        ok, fpr = True, c[0]                        # the bound method itself is handed to the solver
     if ok:
         ctx.holds(f, fpr, "derivative = tangential_compliance(stress)")
     else:
